@@ -106,13 +106,16 @@ Definition env_de_json (bs : list N) : option (pag_version * sel) :=
 Definition ENV_MID_S : str := ENV_MID ++ [34].
 Definition ENV_SUFFIX_S : str := [34; 125; 125].
 
-Definition env_ser_names (names : list str) (s : sel) : option (list N) :=
-  let (o, k) := s in
-  match nth_error names (N.to_nat k) with
-  | Some nm =>
-      Some (ENV_PREFIX ++ (match o with Asc => W_ASC | Desc => W_DESC end)
-            ++ ENV_MID_S ++ nm ++ ENV_SUFFIX_S)
-  | None => None
+(* how ranks are named: an explicit sorted list, or (for collections too long
+   to write out) prefix ++ the rank in decimal, zero-padded to a fixed width *)
+Inductive namer :=
+| NList (names : list str)
+| NPad (prefix : str) (width count : N).
+
+Fixpoint pad_dec (width : nat) (n : N) (acc : str) : str :=
+  match width with
+  | O => acc
+  | S w => pad_dec w (n / 10) ((48 + n mod 10) :: acc)
   end.
 
 Fixpoint index_of (nm : str) (names : list str) (i : N) : option N :=
@@ -121,13 +124,43 @@ Fixpoint index_of (nm : str) (names : list str) (i : N) : option N :=
   | x :: r => if str_eqb nm x then Some i else index_of nm r (i + 1)
   end.
 
+Definition name_of (nm : namer) (k : N) : option str :=
+  match nm with
+  | NList names => nth_error names (N.to_nat k)
+  | NPad p w c => if k <? c then Some (p ++ pad_dec (N.to_nat w) k []) else None
+  end.
+
+Definition rank_of (nm : namer) (s : str) : option N :=
+  match nm with
+  | NList names => index_of s names 0
+  | NPad p w c =>
+      match strip_prefix p s with
+      | None => None
+      | Some ds =>
+          if (N.of_nat (length ds) =? w) && forallb is_digit ds && (dec_value ds <? c)
+          then Some (dec_value ds) else None
+      end
+  end.
+
+Definition namer_count (nm : namer) : N :=
+  match nm with NList names => N.of_nat (length names) | NPad _ _ c => c end.
+
+Definition env_ser_names (nmr : namer) (s : sel) : option (list N) :=
+  let (o, k) := s in
+  match name_of nmr k with
+  | Some nm =>
+      Some (ENV_PREFIX ++ (match o with Asc => W_ASC | Desc => W_DESC end)
+            ++ ENV_MID_S ++ nm ++ ENV_SUFFIX_S)
+  | None => None
+  end.
+
 Definition strip_suffix (suf s : str) : option str :=
   match strip_prefix (rev_append suf []) (rev_append s []) with
   | Some r => Some (rev_append r [])
   | None => None
   end.
 
-Definition env_de_names (names : list str) (bs : list N) : option (pag_version * sel) :=
+Definition env_de_names (names : namer) (bs : list N) : option (pag_version * sel) :=
   match strip_prefix ENV_PREFIX bs with
   | None => None
   | Some r1 =>
@@ -148,7 +181,7 @@ Definition env_de_names (names : list str) (bs : list N) : option (pag_version *
               match strip_suffix ENV_SUFFIX_S r3 with
               | None => None
               | Some nm =>
-                  match index_of nm names 0 with
+                  match rank_of names nm with
                   | Some k => Some (V1, (o, k))
                   | None => None
                   end
@@ -166,6 +199,13 @@ Fixpoint names_sorted (names : list str) : bool :=
 Definition name_plain (nm : str) : bool :=
   forallb (fun c => (32 <=? c) && (c <? 256) && negb (c =? 34) && negb (c =? 92)) nm.
 
+(* fixed-width decimals sort like the numbers they write *)
+Definition namer_wf (nm : namer) : bool :=
+  match nm with
+  | NList names => names_sorted names && forallb name_plain names
+  | NPad p w c => name_plain p && (w <=? 20) && (c <=? 10 ^ w)
+  end.
+
 (* ---------- observations ---------- *)
 (* Long key lists are written compactly when they are arithmetic progressions
    (the harness checks that the expansion is exactly the list it has):
@@ -175,13 +215,17 @@ Inductive keys :=
 | KOff (base : N) (offsets : list N)      (* base + offset, for runs of large keys *)
 | KArith (first step : N) (down : bool) (count : N).
 
+Fixpoint arith (n : nat) (cur step : N) (down : bool) : list N :=
+  match n with
+  | O => []
+  | S m => cur :: arith m (if down then cur - step else cur + step) step down
+  end.
+
 Definition expand (k : keys) : list N :=
   match k with
   | KList l => l
   | KOff base offsets => map (N.add base) offsets
-  | KArith first step down count =>
-      map (fun i => let d := N.of_nat i * step in if down then first - d else first + d)
-          (seq 0 (N.to_nat count))
+  | KArith first step down count => arith (N.to_nat count) first step down
   end.
 
 (* one page: items, token present?, the token (where recorded) *)
@@ -196,12 +240,36 @@ Inductive scan_obs :=
 | SRunaway (pages : list page_raw).          (* the client gave up: still a token after |coll| + 2
                                                 requests, or more items received than the collection holds *)
 
+(* Summary of a long scan.  [MDone runs nitems item_hash toks]: the scan ended
+   on a page without token; [runs] is the run-length encoding of the sequence
+   of (page size, token present) — (size, token, how many consecutive pages);
+   [nitems] the number of items received; [item_hash] a 64-bit rolling hash
+   (hash64) of the whole item sequence in the order received (keys, or ranks
+   for names; a name the collection does not hold counts as rank |coll|);
+   [toks] the token bytes of a few pages (page index from 0).  Item equality is
+   therefore judged up to a collision of the 64-bit hash. *)
+Inductive scan_sum :=
+| MDone (runs : list (N * bool * N)) (nitems : N) (item_hash : N) (toks : list (N * str))
+| MFailed (status : N) (npages : N)
+| MRunaway (npages : N).
+
+Inductive keysrc :=
+| KInts (k : keys)
+| KNames (nm : namer).
+
+Definition hash64 (l : list N) : N :=
+  fold_left (fun h k => N.land (N.lxor (h * 33) k) 18446744073709551615) l 5381.
+
 Inductive c15case :=
 | CScan (o : order) (coll : keys) (lim : option N) (obs : scan_obs)
 | CScanGrid (o : order) (coll : keys) (rows : list (option N * scan_obs))
 (* a collection of names (sorted); items in the observation are ranks (a name
    the collection does not hold is reported as rank |names|) *)
-| CScanNames (o : order) (names : list str) (lim : option N) (obs : scan_obs).
+| CScanNames (o : order) (names : namer) (lim : option N) (obs : scan_obs)
+(* a scan too long to write out page by page: the harness reports a summary
+   (see [scan_sum]); judged against the threaded evaluation of the same model
+   (Pagination.fast_scan, proved equal to full_scan: C15_fast_scan_is_scan) *)
+| CScanSum (o : order) (coll : keysrc) (lim : option N) (obs : scan_sum).
 
 (* ---------- the property statement, on the observation alone ---------- *)
 Definition page_spec (eff : N) (p : page_obs) : bool :=
@@ -281,10 +349,60 @@ Definition judge_scan_with (ser : sel -> option (list N))
 
 Definition judge_scan := judge_scan_with env_ser_json env_de_json.
 
-Definition judge_names (o : order) (names : list str) (lim : option N) (obs : scan_obs) : N :=
-  if negb (names_sorted names && forallb name_plain names) then V_MALFORMED else
-  let coll := map N.of_nat (seq 0 (length names)) in
-  judge_scan_with (env_ser_names names) (env_de_names names) o coll lim obs.
+Definition ranks (n : N) : list N := arith (N.to_nat n) 0 1 false.
+
+Definition judge_names (o : order) (names : namer) (lim : option N) (obs : scan_obs) : N :=
+  if negb (namer_wf names) then V_MALFORMED else
+  judge_scan_with (env_ser_names names) (env_de_names names) o (ranks (namer_count names)) lim obs.
+
+(* ---------- long scans, summarised ---------- *)
+Definition expand_runs (runs : list (N * bool * N)) : list (N * bool) :=
+  flat_map (fun r : N * bool * N => let '(sz, t, c) := r in repeat (sz, t) (N.to_nat c)) runs.
+
+Definition sum_sizes (l : list (N * bool)) : N := fold_left (fun a p => a + fst p) l 0.
+
+(* the property statement on the summary *)
+Definition spec_sum (o : order) (coll : list N) (lim : option N) (obs : scan_sum) : bool :=
+  match obs with
+  | MDone runs nitems item_hash _ =>
+      let eff := page_limit lim PAGE_MAX PAGE_DEFAULT in
+      let ps := expand_runs runs in
+      (* every item exactly once, in order: as many items as the collection
+         holds and the same rolling hash as the collection in scan order *)
+      (nitems =? N.of_nat (length coll)) && (sum_sizes ps =? nitems) &&
+      (item_hash =? hash64 (view o coll)) &&
+      forallb (fun p : N * bool => (fst p <=? eff) && bool_eqb (snd p) (negb (fst p =? 0))) ps
+  | MFailed _ _ => false
+  | MRunaway _ => false
+  end.
+
+Fixpoint toks_agree (ms : list page) (toks : list (N * str)) : bool :=
+  match toks with
+  | [] => true
+  | (i, t) :: r =>
+      match nth_error ms (N.to_nat i) with
+      | Some m => option_eqb str_eqb (next_page m) (Some t)
+      | None => false
+      end && toks_agree ms r
+  end.
+
+Definition judge_sum (o : order) (src : keysrc) (lim : option N) (obs : scan_sum) : N :=
+  let wf := match src with KInts _ => true | KNames nm => namer_wf nm end in
+  let coll := match src with KInts k => expand k | KNames nm => ranks (namer_count nm) end in
+  let ser := match src with KInts _ => env_ser_json | KNames nm => env_ser_names nm end in
+  if negb (wf && wf_case coll lim) then V_MALFORMED else
+  if negb (spec_sum o coll lim obs) then V_VIOLATION else
+  match fast_scan ser PAGE_MAX PAGE_DEFAULT coll (length coll + 2) o lim, obs with
+  | Done ms, MDone runs nitems item_hash toks =>
+      if list_eqb (fun a b : N * bool => (fst a =? fst b) && bool_eqb (snd a) (snd b))
+                  (map (fun m => (N.of_nat (length (items m)),
+                                  match next_page m with Some _ => true | None => false end)) ms)
+                  (expand_runs runs)
+         && (hash64 (concat (map items ms)) =? item_hash)
+         && toks_agree ms toks
+      then V_AGREE else V_DIVERGE
+  | _, _ => V_DIVERGE
+  end.
 
 Definition judge (c : c15case) : N :=
   match c with
@@ -293,4 +411,5 @@ Definition judge (c : c15case) : N :=
       let c := expand coll in
       worst_of (map (fun r : option N * scan_obs => judge_scan o c (fst r) (snd r)) rows)
   | CScanNames o names lim obs => judge_names o names lim obs
+  | CScanSum o src lim obs => judge_sum o src lim obs
   end.
